@@ -238,18 +238,37 @@ def r5(ctx):
         ctx.check(P, rule, "Oplog::flush: second slot uses first's bits", term_has_call(o, INSERT_HEADER) == a,
                   "second insert_header receives the header bits returned by the first",
                   "second insert_header's header bits do not come from the first call: %s" % term_str(o)[:160], [site_desc(ff, b)])
-        # drain(0..1) on first result; extend with second whole
-        dr = [s for s in sites(ff, "std::vec::Vec::<T, A>::drain") if term_has_call(ff.arg_origin(s, 0), INSERT_HEADER) == a]
-        good = False
-        why = "no drain(..) over the first insert_header result"
-        for s in dr:
-            rng = ff.arg_origin(s, 1)
-            if rng[0] == "agg" and rng[1].endswith("Range"):
-                d = dict(rng[3])
-                good = term_is_lit(d.get("start"), 0) and term_is_lit(d.get("end"), 1)
-                why = "drain range is %s" % term_str(rng)
-        ctx.check(P, rule, "Oplog::flush: keeps only the content write of the first result", good,
-                  "first result contributes exactly element 0..1 (its content write)", "first header result not reduced to its first element (%s)" % why)
+        # the three storage operations of a trace-clearing flush, in the order they are handed to
+        # flush_infos: evaluated from how the list is assembled (whole results, drain(i..j), extend)
+        def piece(t_):
+            t_ = strip(t_)
+            if t_[0] == "call" and t_[2].split("::")[-1] == "collect" and t_[3]:
+                return piece(t_[3][0])
+            if t_[0] == "call" and t_[2].split("::")[-1] == "drain" and len(t_[3]) == 2:
+                src = term_has_call(t_[3][0], INSERT_HEADER)
+                rng = strip(t_[3][1])
+                if src is not None and is_agg(rng) and rng[1].endswith("Range"):
+                    d_ = dict(rng[3])
+                    lo, hi = ev(ctx, d_.get("start")), ev(ctx, d_.get("end"))
+                    if lo is not None and hi is not None:
+                        return [(("content", "truncate")[k], src) for k in range(lo, min(hi, 2))]
+                return None
+            src = term_has_call(t_, INSERT_HEADER)
+            if src is not None:
+                return [("content", src), ("truncate", src)]
+            return None
+        exts = sorted([s_ for s_ in sites(ff, "std::iter::Extend::extend") if fa_dom(ff, true_side, s_)], key=lambda s_: len(ff.dom[s_]))
+        seq_ = None
+        if exts:
+            seq_ = piece(ff.arg_origin(exts[0], 0))
+            for s_ in exts:
+                nxt = piece(ff.arg_origin(s_, 1))
+                seq_ = None if (seq_ is None or nxt is None) else seq_ + nxt
+        kinds = [k for k, _ in seq_] if seq_ else None
+        ctx.check(P, rule, "Oplog::flush: a trace-clearing flush issues header write, truncate, header write", seq_ is not None and kinds == ["content", "truncate", "content"] and [x for _, x in seq_][0] == a and [x for _, x in seq_][2] == b,
+                  "[content(first slot), truncate, content(second slot)]: the log is truncated between the two header writes",
+                  "a trace-clearing flush hands %s to flush_infos: every header write flips the current header bit, so after BOTH header writes the entries still in the log carry the current bit again — a crash before the final truncate makes reopen replay entries the header already contains (open fails / data lost); the truncate has to lie between the two header writes" % (kinds,),
+                  [site_desc(ff, s_) for s_ in exts], key="C02|C02.R5|Oplog::flush|truncate between the two header writes")
         # the header bits remembered afterwards are those returned by the LAST header write of each branch
         ws = assign_sites(ff, "self.header_bits")
         okbits = False
@@ -262,9 +281,6 @@ def r5(ctx):
                   "self.header_bits = bits returned by the second insert_header (clearing traces) / by the only one (normal flush)",
                   "after a trace-clearing flush self.header_bits does not come from the second insert_header call: memory and disk disagree on the current header bit, so entries written next carry a stale bit and are discarded on reopen",
                   [loc(ff, ws[0][0], ws[0][1])] if ws else [], key="C02|C02.R5|Oplog::flush|header bits after clearing traces")
-        ex = [s for s in sites(ff, "std::iter::Extend::extend") if term_has_call(ff.arg_origin(s, 1), INSERT_HEADER) == b]
-        ctx.check(P, rule, "Oplog::flush: second result appended whole", bool(ex), "second result (content, truncate) appended after the first content",
-                  "second insert_header result is not appended whole after the first")
 
 
 def fa_dom(fa, a, b):
